@@ -685,7 +685,10 @@ Definition enc_instr (i : instr) : json :=
       tagc "FunctionArg"
         (JObj [("value", enc_value v);
                ("func_arg", JObj [("name", JStr pn); ("parameter_type", enc_sem_ty pt)])])
-  | IExt tag r => tagc "ExtendedExpression" (JObj [("tag", enc_N tag); ("reg", enc_N r)])
+  (* the harness instruction type follows the library's own convention: an adjacently tagged enum
+     [Ins::Mark { tag, reg }] (so that a change of the tagging of the enclosing enum is felt) *)
+  | IExt tag r =>
+      tagc "ExtendedExpression" (tagc "Mark" (JObj [("tag", enc_N tag); ("reg", enc_N r)]))
   end.
 
 Definition dec_instr (j : json) : option instr :=
@@ -747,8 +750,11 @@ Definition dec_instr (j : json) : option instr :=
         obj2 "name" "parameter_type" jp (fun jn jt =>
           let? n := dec_str jn in let? t := dec_sem_ty jt in Some (IFnArg v n t)))
     else if tag_is tag "ExtendedExpression" then
-      obj2 "tag" "reg" c (fun jt jr =>
-        let? t := dec_N jt in let? r := dec_N jr in Some (IExt t r))
+      tagged c no_unit (fun tag2 c2 =>
+        if tag_is tag2 "Mark" then
+          obj2 "tag" "reg" c2 (fun jt jr =>
+            let? t := dec_N jt in let? r := dec_N jr in Some (IExt t r))
+        else None)
     else None).
 
 Definition enc_stack (c : list instr) : json := JArr (map enc_instr c).
